@@ -33,6 +33,10 @@ REGISTRIES = {
 REGISTRY_FIELDS = {("OrcTarget", "rule_sets"), ("OrcTarget", "n_rule_sets"), ("OrcRuleSet", "rules"), ("OrcRule", "emit"), ("OrcRule", "emit_user")}
 
 
+BUFFER_WRITERS = ("snprintf", "sprintf", "vsnprintf", "vsprintf", "strcpy", "strncpy", "strcat", "strncat", "memcpy", "memmove", "memset",
+                  "__builtin___snprintf_chk", "__builtin___sprintf_chk", "__builtin___strcpy_chk", "__builtin___memcpy_chk", "__builtin___memset_chk")
+
+
 def writes_of(f):
     """(node, kind, key) for every store to a global or to a record field."""
     for n in f.walk():
@@ -40,6 +44,11 @@ def writes_of(f):
             l = strip_casts(n.c[0])
         elif n.k == "UnaryOperator" and n.op in ("++", "--"):
             l = strip_casts(n.c[0])
+        elif n.k == "CallExpr" and n.name in BUFFER_WRITERS and n.args():
+            # snprintf (buf, ...), strcpy (buf, ...): a store into the buffer named by the first argument
+            l = strip_casts(n.args()[0])
+            if l is not None and l.k == "UnaryOperator" and l.op == "&":
+                l = strip_casts(l.c[0])
         else:
             continue
         if l is None:
